@@ -862,11 +862,23 @@ func SolveAll(results []*FuncResult, opt SolveOptions) {
 		opt.Workers = 5
 	}
 	os.MkdirAll(opt.OutDir, 0o755)
+	// a change that makes one function's obligations hard would otherwise cost (obligations x timeout): after
+	// maxTimeouts undischarged, unlisted obligations in one function the rest of that function is not attempted
+	var tmu sync.Mutex
+	timeouts := map[string]int{}
+	const maxTimeouts = 6
 	for w := 0; w < opt.Workers; w++ {
 		wg.Add(1)
 		go func() {
 			defer wg.Done()
 			for j := range ch {
+				tmu.Lock()
+				skip := timeouts[j.o.Func] >= maxTimeouts && j.o.Expect != "sat" && !(opt.Known != nil && opt.Known[j.o.ID])
+				tmu.Unlock()
+				if skip {
+					j.o.Result = SolveResult{Status: "skipped", Solver: "none", Output: fmt.Sprintf("not attempted: %d other obligations of %s already timed out in this run", maxTimeouts, j.o.Func)}
+					continue
+				}
 				q := j.e.BuildQuery(j.o)
 				j.o.Query = q
 				name := sanitizeFile(j.o.ID)
@@ -896,6 +908,11 @@ func SolveAll(results []*FuncResult, opt SolveOptions) {
 				}
 				j.o.Result = r
 				j.o.All = all
+				if j.o.Expect != "sat" && r.Status != "unsat" && r.Status != "sat" {
+					tmu.Lock()
+					timeouts[j.o.Func]++
+					tmu.Unlock()
+				}
 			}
 		}()
 	}
